@@ -4,6 +4,7 @@ and its simulated behaviours (thread-id sequences) are replayed on REAL threads 
 instrumented DashMap's cooperative scheduler (harness/vendor/dashmap/src/verif.rs)."""
 import json
 import os
+import re
 import random
 import subprocess
 
@@ -576,6 +577,84 @@ def gen_locks_mc(templates, modname="MC_Locks_gen"):
     return body
 
 
+def c12_bare_chains(V, tier):
+    import lsp
+    import shutil
+    C.build_server()
+    base = os.path.join(C.BUILD, "ws", "c12bare-%d" % os.getpid())
+    shutil.rmtree(base, ignore_errors=True)
+    H = "import pytest\n\n\n"
+    BARE = "@pytest.fixture\ndef engine(engine):\n    return engine\n"
+    # the outermost definition DOES spell a type (handlers skip names nobody annotates)
+    # ... and an unrelated annotated fixture is visible everywhere (a handler that gives up when NO visible fixture has a type must go on)
+    ROOT = ("class Engine:\n    pass\n\n\n@pytest.fixture\ndef engine() -> Engine:\n    return Engine()\n\n\n"
+            "@pytest.fixture\ndef clock() -> int:\n    return 0\n")
+    USE = "def test_e(engine, clock):\n    pass\n"
+    W = {
+        "twice_in_one_conftest": {"conftest.py": H + ROOT, "a/conftest.py": H + BARE + "\n\n" + BARE, "a/test_a.py": USE},
+        "twice_in_test_module": {"conftest.py": H + ROOT, "a/test_a.py": H + BARE + "\n\n" + BARE + "\n\n" + USE},
+        "star_imported_override": {"conftest.py": H + ROOT, "a/conftest.py": "from .helpers import *\n", "a/helpers.py": H + BARE,
+                                   "a/b/conftest.py": H + BARE, "a/b/test_b.py": USE, "a/test_a.py": USE},
+        "three_levels": {"conftest.py": H + ROOT, "a/conftest.py": H + BARE,
+                         "a/b/conftest.py": H + BARE, "a/b/test_b.py": H + BARE + "\n\n" + USE},
+        "no_parent_at_all": {"conftest.py": H + "@pytest.fixture\ndef clock() -> int:\n    return 0\n", "a/conftest.py": H + BARE,
+                             "a/test_a.py": H + BARE + "\n\n" + USE},
+        "three_levels_bare_root": {"conftest.py": H + BARE.replace("(engine)", "()").replace("return engine", "return 0"), "a/conftest.py": H + BARE,
+                                   "a/b/conftest.py": H + BARE, "a/b/test_b.py": H + BARE + "\n\n" + USE},
+        "mutual_star_imports": {"conftest.py": "from .m1 import *\n", "m1.py": "from .m2 import *\n" + H + ROOT + "\n\n" + BARE,
+                                "m2.py": "from .m1 import *\n" + H + BARE, "test_m.py": USE},
+    }
+
+    def session(job):
+        name, files = job
+        root = os.path.join(base, name)
+        for rel, t in files.items():
+            os.makedirs(os.path.dirname(os.path.join(root, rel)), exist_ok=True)
+            with open(os.path.join(root, rel), "w") as fh:
+                fh.write(t)
+        open(os.path.join(root, "__init__.py"), "w").close()
+        srv = lsp.Server(timeout=8.0)
+        asked = []
+        try:
+            srv.initialize(root)
+            for rel, t in sorted(files.items()):
+                p = os.path.join(root, rel)
+                srv.did_open(p, t)
+                lines = t.split("\n")
+                whole = {"range": {"start": {"line": 0, "character": 0}, "end": {"line": len(lines), "character": 0}}}
+                for method, extra in (("textDocument/inlayHint", whole), ("textDocument/codeLens", None), ("textDocument/documentSymbol", None)):
+                    asked.append((rel, method))
+                    srv.doc_request(method, p, extra)
+                for i, l in enumerate(lines):
+                    for col in [m.start() for m in re.finditer(r"\bengine\b", l)]:
+                        for method in ("textDocument/hover", "textDocument/definition", "textDocument/implementation", "textDocument/references",
+                                       "textDocument/prepareCallHierarchy", "textDocument/completion"):
+                            asked.append((rel, method, i, col))
+                            a = srv.pos_request(method, p, i, col + 1, {"context": {"includeDeclaration": True}} if method.endswith("references") else None)
+                            if method.endswith("prepareCallHierarchy") and isinstance(a, list) and a:
+                                asked.append((rel, "callHierarchy/*", i, col))
+                                srv.request("callHierarchy/outgoingCalls", {"item": a[0]})
+                                srv.request("callHierarchy/incomingCalls", {"item": a[0]})
+            return {"asked": len(asked), "alive": srv.alive()}
+        except (lsp.ServerDied, lsp.Timeout) as e:
+            return {"error": str(e), "last_request": list(asked[-1]) if asked else None, "asked": len(asked)}
+        finally:
+            srv.close()
+            shutil.rmtree(root, ignore_errors=True)
+
+    jobs = sorted(W.items())
+    for (name, files), r in zip(jobs, lsp.run_parallel(jobs, session, workers=6)):
+        V.count()
+        V.nontriv(("bare_chain", name))
+        if r is None or "__exception__" in r:
+            raise C.ToolError("LSP session failed: %r" % (r,))
+        if "error" in r or not r.get("alive"):
+            V.violation({"workspace": name, "files": files, "result": r},
+                        "a request on a chain of overrides that spell nothing themselves is never answered (or the server died)")
+    shutil.rmtree(base, ignore_errors=True)
+    return len(jobs)
+
+
 def check_c12(tier):
     set_watchdog(tier)
     import layouts as L
@@ -783,6 +862,10 @@ def check_c12(tier):
     # request must still be answered (the handlers share one task with the reader: a handler that blocks wedges everything)
     nslow = c12_slow_client(V, tier)
     V.notes["slow_client_sessions"] = nslow
+    # ---- (6) handlers that WALK override chains (inlay hints, hover, call hierarchy): chains of pass-through overrides that spell
+    # nothing themselves (no annotation, no docstring), the same override twice in one file, an override delivered by a star import
+    # next to another override -- every request must be answered
+    V.notes["bare_override_chain_sessions"] = c12_bare_chains(V, tier)
     V.sample({"templates": tlist})
     cov = {"states": meta["distinct"] + meta_iw["distinct"], "transitions": meta["transitions"] + meta_iw["transitions"],
            "traces_validated_against_impl": len(res) + len(sres), "templates": tlist, "entry_points": sorted(ops_seen),
